@@ -5,7 +5,8 @@
 (* the clauses of C12 as invariants.  The code objects are the real output *)
 (* of the compiler, so a violated invariant is a verdict about the         *)
 (* compiler; every violating state prints one JSON record naming the code  *)
-(* object, the offset and the opcode there (run with -continue).           *)
+(* object, the offset of the offending instruction and its opcode (run     *)
+(* with -continue to collect all of them).                                 *)
 (***************************************************************************)
 EXTENDS PyVM
 
@@ -13,22 +14,35 @@ VARIABLES cid, pc, stk, blk, ph, chk
 vars == <<cid, pc, stk, blk, ph, chk>>
 
 StackSize == Codes[cid].stacksize
-InCode == pc >= 0 /\ pc < CodeLen(cid) /\ Codes[cid].st[pc + 1] = 1
-\* states that violate a bound are not expanded (keeps the state space finite with -continue)
-Healthy == InCode /\ Len(stk) <= StackSize /\ Len(blk) <= MAXBLOCKS
 
 Init == /\ cid \in 1..NC /\ pc = 0 /\ stk = <<>> /\ blk = <<>> /\ ph = "load" /\ chk = NoChk
 
 \* the static clauses, computed in a step so that the workers share the work
+\* (a bad line table is reported in a terminal side state, so that the exploration of the code goes on:
+\* TLC does not expand a state that violates an invariant, even with -continue)
 Load == /\ ph = "load"
-        /\ LET k == StaticCheck(cid)
-           IN chk' = k /\ ph' = IF Runnable(k) THEN "run" ELSE "malformed"
+        /\ \E k \in {StaticCheck(cid)} :
+             \/ chk' = [k EXCEPT !.ln = ""] /\ ph' = "checked"
+             \/ k.ln # "" /\ chk' = k /\ ph' = "lnotab"
         /\ UNCHANGED <<cid, pc, stk, blk>>
-Run == /\ ph = "run" /\ Healthy
-       /\ \E r \in Succ(cid, pc, stk, blk) :
+Start == /\ ph = "checked"
+         /\ ph' = IF ~Runnable(chk) THEN "malformed" ELSE IF CodeLen(cid) = 0 THEN "pc" ELSE "run"
+         /\ UNCHANGED <<cid, pc, stk, blk, chk>>
+
+\* A successor that breaks a bound is turned into a terminal state that keeps the offset p of the
+\* instruction that produced it (so the report names the culprit, and the state space stays finite).
+Judge(p, r) ==
+  IF r.ph # "run" THEN r
+  ELSE IF ~(r.pc >= 0 /\ r.pc < CodeLen(cid) /\ Codes[cid].st[r.pc + 1] = 1) THEN [pc |-> p, stk |-> r.stk, blk |-> r.blk, ph |-> "pc"]
+  ELSE IF Len(r.stk) > StackSize THEN [pc |-> p, stk |-> r.stk, blk |-> r.blk, ph |-> "depth"]
+  ELSE IF Len(r.blk) > MAXBLOCKS THEN [pc |-> p, stk |-> r.stk, blk |-> r.blk, ph |-> "blocks"]
+  ELSE IF ~LevelsOK(r.stk, r.blk) THEN [pc |-> p, stk |-> r.stk, blk |-> r.blk, ph |-> "level"]
+  ELSE r
+Run == /\ ph = "run"
+       /\ \E r \in { Judge(pc, r0) : r0 \in Succ(cid, pc, stk, blk) } :
             /\ pc' = r.pc /\ stk' = r.stk /\ blk' = r.blk /\ ph' = r.ph
        /\ UNCHANGED <<cid, chk>>
-Next == Load \/ Run
+Next == Load \/ Start \/ Run
 Spec == Init /\ [][Next]_vars
 
 ---------------------------------------------------------------------------
@@ -36,38 +50,43 @@ Report(inv, p, kind) ==
   PrintT(ToJson([v |-> inv, cid |-> cid, pc |-> p, kind |-> kind, depth |-> Len(stk), nblk |-> Len(blk),
                  op |-> IF p >= 0 /\ p < CodeLen(cid) THEN B(cid, p) ELSE -1]))
 
+InsOf(k) == { p \in chk.ins : InstrKind(cid, p) = k }
 \* machinery: the boundary witness supplied by the harness is the decoding from offset 0
-WitnessOK == chk.witness = -1 \/ ~Report("WitnessOK", chk.witness, "witness")
+WitnessOK == chk.wit = {} \/ ~Report("WitnessOK", MinOf(chk.wit), "witness")
 \* every instruction lies inside the code string
-DecodeOK == chk.trunc = -1 \/ ~Report("DecodeOK", chk.trunc, "truncated")
+DecodeOK == InsOf(1) = {} \/ ~Report("DecodeOK", MinOf(InsOf(1)), "truncated")
 \* every opcode is defined; EXTENDED_ARG prefixes an instruction with an operand
-OpcodesOK == chk.opcode = -1 \/ ~Report("OpcodesOK", chk.opcode, "opcode")
+OpcodesOK == InsOf(2) = {} \/ ~Report("OpcodesOK", MinOf(InsOf(2)), "opcode")
 \* every operand indexes an existing constant, name, local, cell or comparison
-OperandsOK == chk.operand = -1 \/ ~Report("OperandsOK", chk.operand, "operand")
+OperandsOK == InsOf(3) = {} \/ ~Report("OperandsOK", MinOf(InsOf(3)), "operand")
 \* every jump lands on an instruction boundary inside the code
-JumpTargetsOK == chk.jump = -1 \/ ~Report("JumpTargetsOK", chk.jump, "jump")
+JumpTargetsOK == InsOf(4) = {} \/ ~Report("JumpTargetsOK", MinOf(InsOf(4)), "jump")
 \* the line table is monotone and stays within the code and the source
-LnotabOK == chk.lnotab = "" \/ ~Report("LnotabOK", -1, chk.lnotab)
+LnotabOK == ph # "lnotab" \/ ~Report("LnotabOK", -1, chk.ln)
 \* no path underflows the value stack
 NoUnderflow == ph # "underflow" \/ ~Report("NoUnderflow", pc, ph)
 \* the value stack never exceeds co_stacksize
-DepthOK == Len(stk) <= StackSize \/ ~Report("DepthOK", pc, "depth")
+DepthOK == ph # "depth" \/ ~Report("DepthOK", pc, ph)
+\* MAKE_FUNCTION / MAKE_CLOSURE find the code object, the qualified name, the annotation names and the names
+\* of the keyword-only defaults where the instruction's documented stack layout puts them
+FuncOperandsOK == ph # "make_function" \/ ~Report("FuncOperandsOK", pc, ph)
 \* POP_BLOCK / POP_EXCEPT / END_FINALLY / WITH_CLEANUP find blocks and markers of the right kind
 BlocksBalanced == ph \notin {"pop_block", "pop_block_level", "pop_except", "end_finally", "with_cleanup", "handler_unwind"}
                   \/ ~Report("BlocksBalanced", pc, ph)
 \* the value stack never drops below the level of an enclosing block
-BlockLevelsOK == (ph = "run" => LevelsOK(stk, blk)) \/ ~Report("BlockLevelsOK", pc, "level")
+BlockLevelsOK == ph # "level" \/ ~Report("BlockLevelsOK", pc, ph)
 \* at most CO_MAXBLOCKS nested blocks
-BlockDepthOK == Len(blk) <= MAXBLOCKS \/ ~Report("BlockDepthOK", pc, "blocks")
+BlockDepthOK == ph # "blocks" \/ ~Report("BlockDepthOK", pc, ph)
 \* control never leaves the code string or lands inside an instruction
-InRange == (ph = "run" => InCode) \/ ~Report("InRange", pc, "pc")
+InRange == ph # "pc" \/ ~Report("InRange", pc, ph)
 \* every path ends in RETURN_VALUE or in a propagating exception
 EndsInReturn == ph # "badexit" \/ ~Report("EndsInReturn", pc, ph)
 \* nothing else
-PhaseKnown == ph \in {"load", "malformed", "run", "returned", "raised", "underflow", "badexit",
+PhaseKnown == ph \in {"load", "checked", "lnotab", "malformed", "run", "returned", "raised", "underflow", "badexit", "make_function",
+                      "depth", "blocks", "level", "pc",
                       "pop_block", "pop_block_level", "pop_except", "end_finally", "with_cleanup", "handler_unwind"}
 
 \* export of the reachable (pc, depth, block depth) triples of the code objects marked emit (always TRUE)
-EmitReach == (ph = "run" /\ Codes[cid].emit = 1 /\ Healthy)
+EmitReach == (ph = "run" /\ Codes[cid].emit = 1)
                => PrintT(ToJson([e |-> cid, pc |-> pc, d |-> Len(stk), b |-> Len(blk)]))
 ====
